@@ -10,25 +10,25 @@ sys.path.insert(0, str(V))
 CHECKS = {
     "C04": dict(
         technique="explicit enumeration of all value multisets x k x orderings against real get_type/shrink_types (bounded exhaustive model checking, E1)",
-        text="Every multiset of 1..3 (thorough ..4) grammar values up to nesting depth 2 (3) x six size limits x every permutation/duplication ordering is run through the real inference and judged by a reference conformance oracle; a coverage statement over the stated alphabet, not a sample.",
+        text="Every multiset of 1..3 (thorough ..4) grammar values up to nesting depth 2 (3) x six size limits x every permutation/duplication ordering is run through the real inference and judged by a reference conformance oracle; a coverage statement over the stated alphabet, not a sample. Traces are also merged the way the pipeline collects them (as a set inside StubIndexBuilder).",
         note="Trusts the reference oracle mcheck/oracles/types.py and the value grammar (DESIGN section 3); values outside the grammar are out of reach.",
         ref="DESIGN.md section 4 C04",
     ),
     "C05": dict(
         technique="explicit enumeration of all value multisets x k, witness oracle walking type and values in lock-step (bounded exhaustive, E1)",
-        text="Same exhaustive space as C04; each inferred type is walked with the observed values and every union alternative, class, Any and required/optional key must be witnessed.",
+        text="Same exhaustive space as C04; each inferred type is walked with the observed values and every union alternative, class, Any and required/optional key must be witnessed. Rewriter-less entry points include really traced calls on one list object mutated in place and a duplicate-heavy store under a small query limit.",
         note="Trusts the witness rules of DESIGN C05 (subset-existential witness for union alternatives).",
         ref="DESIGN.md section 4 C05",
     ),
     "C06": dict(
         technique="explicit enumeration of dict shapes (0..12 keys, string/non-string/mixed, nested, second-level merges) x k x 7 pipeline stages incl. the real tracer, SQLite store and CLI (bounded exhaustive, E1)",
-        text="Every dict shape of the grammar, alone and in multisets whose merged key sets straddle each limit, is pushed through get_type, shrink_types, the row and SQLite round trips, stub rendering, the real tracer and the CLI with the limit supplied only by the Config; every TypedDict node and rendered class is inspected.",
+        text="Every dict shape of the grammar, alone and in multisets whose merged key sets straddle each limit, is pushed through get_type, shrink_types, the row and SQLite round trips, stub rendering, the real tracer and the CLI with the limit supplied only by the Config; every TypedDict node and rendered class is inspected. Plus one generator call yielding several oversize dicts of small dicts, through every shipped rewriter.",
         note="Assumes one Config (the same k) for tracing and stub generation; trusts ast for parsing stubs.",
         ref="DESIGN.md section 4 C06",
     ),
     "C07": dict(
         technique="explicit enumeration of a type grammar (unions of 2..8 members in every rotation) and of all inferred types x 7 rewriters + default chain + 49 chained pairs (bounded exhaustive, E1)",
-        text="Every grammar type and every distinct type inferred from grammar values is rewritten by every shipped rewriter, the default chain and every ordered pair; witnesses of the input must stay members, a change requires the documented trigger, chains must equal sequential composition.",
+        text="Every grammar type and every distinct type inferred from grammar values is rewritten by every shipped rewriter, the default chain and every ordered pair; witnesses of the input must stay members, a change requires the documented trigger, chains must equal sequential composition. Plus histories of 2..3 generations of one class hierarchy rebuilt under the same names (rewriter state lives across the history).",
         note="Reads C[Any] as the empty container (MonkeyType's convention); trusts witnesses()/member().",
         ref="DESIGN.md section 4 C07",
     ),
@@ -40,19 +40,19 @@ CHECKS = {
     ),
     "C11": dict(
         technique="explicit enumeration of type builders x class pairs/triples from a module-name-collision fixture package x targets, rendered stubs evaluated in their own namespace (bounded exhaustive translation validation, E1)",
-        text="Every builder (containers, Optional/Union, Type, Callable, Iterator/Generator, TypedDicts at every container position) over every ordered pair of 14 classes from modules whose names are suffixes of one another is rendered through the real ModuleStub; the import block is executed and every annotation evaluated with only the stub's names, then compared structurally with the rendered type.",
+        text="Every builder (containers, Optional/Union, Type, Callable, Iterator/Generator, TypedDicts at every container position) over every ordered pair of 14 classes from modules whose names are suffixes of one another is rendered through the real ModuleStub; the import block is executed and every annotation evaluated with only the stub's names, then compared structurally with the rendered type. Builders include TypedDict fields holding containers of TypedDicts and generics rendered through repr (Callable[[List[a]], Optional[b]], Mapping, Sequence, Awaitable).",
         note="Trusts stubeval/ast; classes with the same short name in two modules are outside the alphabet.",
         ref="DESIGN.md section 4 C11",
     ),
     "C12": dict(
         technique="explicit enumeration of all valid parameter lists x function kinds x class depths, all traced subsets per generated module, stubs compared with inspect.signature (bounded exhaustive, E1)",
-        text="Every valid parameter list of up to 3/4 parameters over the six kinds (plus long-name lists that wrap), for every function kind and class depth 0..2, is generated as real modules; for every subset of traced functions (and varying traced parameters) the rendered stub must parse and mirror names, kinds, order, defaults, decorators, async and an unannotated receiver.",
+        text="Every valid parameter list of up to 3/4 parameters over the six kinds (plus long-name lists that wrap), for every function kind and class depth 0..2, is generated as real modules; for every subset of traced functions (and varying traced parameters) the rendered stub must parse and mirror names, kinds, order, defaults, decorators, async and an unannotated receiver. Same-named functions also through StubIndexBuilder, and one StubIndexBuilder across edits and reloads of the source.",
         note="Trusts ast and inspect.signature.",
         ref="DESIGN.md section 4 C12",
     ),
     "C13": dict(
         technique="explicit enumeration of the annotated? x traced? x strategy x result-kind matrix over generated signatures, API and CLI flags (bounded exhaustive, E1)",
-        text="Every subset of {receiver, parameters, return} annotated with each of five annotation kinds x every traced subset x REPLICATE/OMIT/IGNORE x five result kinds x three function kinds is generated as real source and run through the real stub builder (and the CLI flags); each position is compared with the expectation table of the property.",
+        text="Every subset of {receiver, parameters, return} annotated with each of five annotation kinds x every traced subset x REPLICATE/OMIT/IGNORE x five result kinds x three function kinds is generated as real source and run through the real stub builder (and the CLI flags); each position is compared with the expectation table of the property. Plus dotted string / postponed source annotations next to positions traced with classes from modules named like a path component.",
         note="The IGNORE/annotated/untraced cell is left open as the property leaves it; Optional[T] accepted for a traced None-default parameter.",
         ref="DESIGN.md section 4 C13",
     ),
@@ -76,7 +76,7 @@ CHECKS = {
     ),
     "C02": dict(
         technique="explicit-state BFS over driver-operation sequences on live generator/coroutine frames + exhaustive enumeration of call shapes, real CallTracer under real profile events, judged by a sys.monitoring ground-truth recorder (E3 + E1)",
-        text="Every function kind x parameter list x exit kind x call style, nesting/recursion/propagation scenarios and twin modules are run under the real tracer; all sequences of next/send/throw/close/drop on every single and ordered pair of thirteen generator/coroutine templates (incl. a coroutine rebinding its parameter between awaits, a types.coroutine generator, and generators that meet a value on which type collection itself fails) are explored breadth-first by replay, with the tracer's whole mutable state in the state key. After every driver operation the logged traces must equal the frames the interpreter reports as completed, in order and content, and CallTracer.traces must hold exactly the unfinished frames. The nesting scenarios are repeated with a logger that raises on its i-th call for every i, and a scenario list with self-referential / too deeply nested values (type collection fails) is run in every rotation: such a call may stay unlogged but leaves no per-call state and never a trace that omits a position.",
+        text="Every function kind x parameter list x exit kind x call style, nesting/recursion/propagation scenarios and twin modules are run under the real tracer; all sequences of next/send/throw/close/drop on every single and ordered pair of thirteen generator/coroutine templates (incl. a coroutine rebinding its parameter between awaits, a types.coroutine generator, and generators that meet a value on which type collection itself fails) are explored breadth-first by replay, with the tracer's whole mutable state in the state key. After every driver operation the logged traces must equal the frames the interpreter reports as completed, in order and content, and CallTracer.traces must hold exactly the unfinished frames. The nesting scenarios are repeated with a logger that raises on its i-th call for every i, and a scenario list with self-referential / too deeply nested values (type collection fails) is run in every rotation: such a call may stay unlogged but leaves no per-call state and never a trace that omits a position. Also: decorators that keep __wrapped__ in a slot, one container object handed to call after call, and five monkeytype.trace(config) sessions through the configuration's own logger.",
         note="Trusts CPython 3.12's sys.monitoring events as ground truth; nested functions/closures/lambdas are MAY-log; named parameters exclude *args/**kwargs.",
         ref="DESIGN.md section 4 C02",
     ),
@@ -88,31 +88,31 @@ CHECKS = {
     ),
     "C03": dict(
         technique="exhaustive differential exploration (untraced vs traced run of every tripwire x position workload) with every fault set of size <= 2 injected into the logger, both block exits and both profiler configurations (E4 + E2 fault enumeration)",
-        text="For 16 tripwire kinds at 24 positions (incl. values on which type collection fails, returned / yielded / passed), every subset of at most two faults among {log#1, log#2, log#3, flush}, both exits of the traced block and with/without a pre-installed profiler, the workload is run untraced and traced; the complete observation record (journal of every user-level hook incl. finalisers, results, exceptions, stdout) must be identical, no MonkeyType exception may reach the program, the previous profiler must be back and flush must have run exactly once. In fresh interpreters `python prog.py` / `python -m prog` are compared with `monkeytype run prog.py` / `monkeytype run -m prog` (stdout, exit status; the program looks at sys.argv, __main__ and pickles its own class).",
+        text="For 16 tripwire kinds at 24 positions (incl. values on which type collection fails, returned / yielded / passed), every subset of at most two faults among {log#1, log#2, log#3, flush}, both exits of the traced block and with/without a pre-installed profiler, the workload is run untraced and traced; the complete observation record (journal of every user-level hook incl. finalisers, results, exceptions, stdout) must be identical, no MonkeyType exception may reach the program, the previous profiler must be back and flush must have run exactly once. In fresh interpreters `python prog.py` / `python -m prog` are compared with `monkeytype run prog.py` / `monkeytype run -m prog` (stdout, exit status; the program looks at sys.argv, __main__ and pickles its own class). The differential programs also print a digest of os.environ (own and a child's), cwd and umask.",
         note="Observable behaviour = hook journal + results + exceptions + stdout; fault sites are the logger's log/flush calls.",
         ref="DESIGN.md section 4 C03",
     ),
     "C14": dict(
         technique="exhaustive exploration of store histories (row permutations, duplications, batch/connection splits, runs on different days through a clock seam) and of set-iteration schedules inside stub building (choice-point seam), plus fresh interpreters with three hash seeds (E2 + E1)",
-        text="For eleven trace families every permutation, duplication and batch/connection/day split of the rows is written through the real SQLiteStore and stubbed through the CLI; inside monkeytype.stubs every set's iteration order is answered by the explorer (every single-point deviation, global reverse/rotate); the same store is stubbed in fresh interpreters with three PYTHONHASHSEED values; all stubs of a family must agree per position with unions compared as sets.",
+        text="For eleven trace families every permutation, duplication and batch/connection/day split of the rows is written through the real SQLiteStore and stubbed through the CLI; inside monkeytype.stubs every set's iteration order is answered by the explorer (every single-point deviation, global reverse/rotate); the same store is stubbed in fresh interpreters with three PYTHONHASHSEED values; all stubs of a family must agree per position with unions compared as sets. Plus the shipped DefaultConfig: every split into batches written alternately in-process and by another process, with `monkeytype stub` after every batch.",
         note="Per-process layout is owned through the set seam inside monkeytype.stubs only; the clock of SQLiteStore.add is owned by a seam.",
         ref="DESIGN.md section 4 C14",
     ),
     "C15": dict(
         technique="explicit enumeration of generated source modules (feature-toggle product) x stubs MonkeyType itself generates x overwrite/k/confinement flags, through apply_stub_using_libcst and the real `apply` command; AST eraser-and-diff oracle (bounded exhaustive, E1)",
-        text="Sources built from the complete product of feature toggles (comments, docstring, __future__, typing import, partial annotations, decorators, nested defs, module/class level code, conditional defs, one-liners, star and positional-only parameters) are annotated with the stubs MonkeyType generates for traced subsets under every flag combination; the result must parse, equal the original once annotations / added imports / generated TypedDict classes are erased, keep every comment and existing annotation (unless overwrite), contain every stub annotation, and be a fixed point of a second application; the same through `monkeytype apply` rewriting the file, and through three successive `apply module:qualname` commands in one process, each judged against the file the previous one left.",
+        text="Sources built from the complete product of feature toggles (comments, docstring, __future__, typing import, partial annotations, decorators, nested defs, module/class level code, conditional defs, one-liners, star and positional-only parameters) are annotated with the stubs MonkeyType generates for traced subsets under every flag combination; the result must parse, equal the original once annotations / added imports / generated TypedDict classes are erased, keep every comment and existing annotation (unless overwrite), contain every stub annotation, and be a fixed point of a second application; the same through `monkeytype apply` rewriting the file, and through three successive `apply module:qualname` commands in one process, each judged against the file the previous one left. Faults include a closed standard output; sources include '/' directly followed by '*'.",
         note="libcst needs ~0.3 s per application: quick uses a 5-toggle product plus single-toggle sources, thorough an 8-toggle product and all subsets.",
         ref="DESIGN.md section 4 C15",
     ),
     "C16": dict(
         technique="explicit enumeration of import placement x import form x runtime use x stub-import kind x overwrite with confinement on; results inspected (import inventory) and EXECUTED with the workload re-run (bounded exhaustive, E1)",
-        text="The complete product of eleven import placements (top, after docstring / __future__ / module code, inside a function, an `if TYPE_CHECKING:`, a try/except binding TYPE_CHECKING, module-level try / with / for blocks, a class body), six import forms, runtime use yes/no, eight kinds of imports the stub may add (new user module, typing name, already-imported name, TypedDict base of a generated class, another name of the same module, nothing new, a user module named like typing, a same-short-name class of another module) and overwrite on/off is applied with --pep_563 semantics; the __future__ import must come first, new annotation-only imports must be confined, every original import must stay in place with its alias, and the resulting module is executed and must reproduce the workload's result. Two further families: a second application that needs the import the first one confined (judged against the first result), and sources living in a package that import `from .rsub import Tri` while the stub imports `Tri` from the top-level module `rsub`.",
+        text="The complete product of eleven import placements (top, after docstring / __future__ / module code, inside a function, an `if TYPE_CHECKING:`, a try/except binding TYPE_CHECKING, module-level try / with / for blocks, a class body), six import forms, runtime use yes/no, eight kinds of imports the stub may add (new user module, typing name, already-imported name, TypedDict base of a generated class, another name of the same module, nothing new, a user module named like typing, a same-short-name class of another module) and overwrite on/off is applied with --pep_563 semantics; the __future__ import must come first, new annotation-only imports must be confined, every original import must stay in place with its alias, and the resulting module is executed and must reproduce the workload's result. Two further families: a second application that needs the import the first one confined (judged against the first result), and sources living in a package that import `from .rsub import Tri` while the stub imports `Tri` from the top-level module `rsub`. Also a differential against the unconfined application and two-module histories in a fresh process.",
         note="Trusts ast for the import inventory; the workload's observable result is the module-level RESULT value.",
         ref="DESIGN.md section 4 C16",
     ),
     "C01": dict(
         technique="explicit enumeration of call histories x function kinds x k x rewriter x CLI flag through the real trace -> SQLite -> decode -> shrink -> rewrite -> render pipeline; the stub text is evaluated with its own names and every recorded value judged by the conformance oracle (bounded exhaustive, E1+E4)",
-        text="Every depth-1 grammar value and every pair of representative values is bound to its own generated function (ten kinds: function, method, classmethod, generators with and without return value, coroutine that really suspends, truthfully annotated, alternating yields/returns, one call yielding the whole history); monkeytype.trace(config) records the real run into a SQLite file and `stub` is rendered for five size limits x seven rewriters x four CLI flags; each annotation is evaluated with the names the stub provides and every value really passed, returned or yielded at that position must be a member of it. Every function is also stubbed alone, and a store with many duplicate calls is stubbed under a query limit equal to the number of distinct rows.",
+        text="Every depth-1 grammar value and every pair of representative values is bound to its own generated function (ten kinds: function, method, classmethod, generators with and without return value, coroutine that really suspends, truthfully annotated, alternating yields/returns, one call yielding the whole history); monkeytype.trace(config) records the real run into a SQLite file and `stub` is rendered for five size limits x seven rewriters x four CLI flags; each annotation is evaluated with the names the stub provides and every value really passed, returned or yielded at that position must be a member of it. Every function is also stubbed alone, and a store with many duplicate calls is stubbed under a query limit equal to the number of distinct rows. Histories also include one container object grown between calls, a generator suspended over 1100 other calls, and run / stub / run-in-another-process / stub in one process.",
         note="Trusts member()/stubeval; generator and coroutine annotations are read at function level (yielded / returned / awaited values).",
         ref="DESIGN.md section 4 C01",
     ),
